@@ -65,13 +65,18 @@ func build(k int) *tworld {
 		tw.hs = append(tw.hs, mk(fmt.Sprintf("H%d", i+1)))
 	}
 	lbl := m.SwitchLabel(10)
+	// link delays include zero (omitted from the encoded record) below a
+	// non-zero outer delay and vice versa.
+	delays := []uint16{0, 7, 3, 0, 9, 0, 4, 11, 0, 6, 2, 0}
+	nconn := 0
 	conn := func(a, b *kit.Node) {
 		lbl += 2
 		la, lb := lbl, lbl+1
 		if lbl%3 == 0 {
 			la += 300 // a 2-byte label now and then
 		}
-		_, _, err := w.Connect(a, b, la, lb, uint16(5+int(lbl)%7))
+		_, _, err := w.Connect(a, b, la, lb, delays[nconn%len(delays)])
+		nconn++
 		must(err)
 	}
 	chain := append([]*kit.Node{}, tw.hs...)
@@ -84,6 +89,12 @@ func build(k int) *tworld {
 	conn(tw.r, tw.wn)
 	conn(tw.r, tw.y)
 	conn(tw.z, tw.y)
+	if k >= 2 {
+		// shortcut: the innermost hop is also a direct peer of R (its frames
+		// to R are held back like all others, so the honest captures are the
+		// ones that travelled the whole chain).
+		conn(tw.hs[0], tw.r)
+	}
 	if k > 0 {
 		tw.lastH = tw.hs[k-1]
 	} else {
@@ -156,7 +167,12 @@ func (p parsed) appendix() []byte { return p.raw[p.apxStart:] }
 
 // signRecord lets an (attacking) router produce a genuinely signed record of its own.
 func signRecord(n *kit.Node, p parsed, delay uint16, fwd, ret m.SwitchLabel, next []byte) []byte {
-	att := router.AnnouncePingAttachment{Router: n.Identity().PublicAddress, Delay: delay, ForwardLabel: fwd, ReturnLabel: ret, NextAttachment: next}
+	return signRecordAs(n, n, p, delay, fwd, ret, next)
+}
+
+// signRecordAs lets router n sign (with its own key) a record that names `named`.
+func signRecordAs(n, named *kit.Node, p parsed, delay uint16, fwd, ret m.SwitchLabel, next []byte) []byte {
+	att := router.AnnouncePingAttachment{Router: named.Identity().PublicAddress, Delay: delay, ForwardLabel: fwd, ReturnLabel: ret, NextAttachment: next}
 	data := kit.MustCBOR(att)
 	sig, err := n.Identity().PrivateKey.Sign(nil, data, &ed25519.Options{Context: string(p.context())})
 	must(err)
@@ -454,6 +470,35 @@ func variants(tw *tworld, caps *captures, thorough bool) []variant {
 	if len(ch) > 0 {
 		vs = append(vs, variant{name: "after-genuine/appendix-from-other-time", raw: p.withAppendix(caps.f2.appendix()), via: via, expectAccept: -1, afterGenuine: true})
 		vs = append(vs, variant{name: "after-genuine/body-from-other-time", raw: caps.f2.withAppendix(p.appendix()), via: via, expectAccept: -1, afterGenuine: true})
+	}
+	// histories in which the attacker took an honest part before: after the
+	// genuine announcement of O (chain H1..Hk) was accepted, a malicious
+	// router A that is a direct peer of R (the innermost hop H1 over its
+	// shortcut link, or the delivering peer Hk) relays the OTHER origin's
+	// announcement with an inner record that names router X - any router R
+	// has heard of - but is signed with A's own key, wrapped in A's own record.
+	if len(ch) > 1 {
+		g := caps.g1
+		everyone := append([]*kit.Node{tw.o, tw.o2, tw.wn, tw.y, tw.z}, tw.hs...)
+		for _, a := range []*kit.Node{tw.hs[0], via} {
+			for _, x := range everyone {
+				if x == a {
+					continue
+				}
+				for _, withInner := range []bool{false, true} {
+					var inner []byte
+					if withInner {
+						inner = chO2[len(chO2)-1].raw // the genuine innermost record of O2's announcement
+						if x == tw.hs[0] {
+							continue
+						}
+					}
+					forged := signRecordAs(a, x, g, 1, 41, 42, inner)
+					own := signRecord(a, g, 1, 43, 44, forged)
+					vs = append(vs, variant{name: fmt.Sprintf("after-genuine/record-naming-%s-signed-by-%s/inner=%v", x.Name, a.Name, withInner), raw: g.withAppendix(own), via: a, expectAccept: -1, afterGenuine: true, attackerOwn: [][]byte{own}})
+				}
+			}
+		}
 	}
 	// deliver over a different peer's link.
 	add("delivered-over-other-link-Y", append([]byte(nil), p.raw...), tw.y, -1)
